@@ -334,6 +334,37 @@ class _BodyImportsResolver(ast.NodeTransformer):
                 )
         return node
 
+    def _visit_nested_scope(self, node: ast.AST, own_names: Set[str]) -> Any:
+        # An import statement binds its names in the scope that contains it: they are seen in the scopes nested
+        # in that scope unless these bind the same name, and they are not seen outside.
+        saved = self._aliases
+        self._aliases = dict((k, v) for (k, v) in saved.items() if k not in own_names)
+        try:
+            return self.generic_visit(node)
+        finally:
+            self._aliases = saved
+
+    def visit_FunctionDef(self, node: ast.FunctionDef) -> Any:
+        return self._visit_nested_scope(
+            node, set(_arg_names(node.args)) | _bound_names(node.body)[0]
+        )
+
+    def visit_Lambda(self, node: ast.Lambda) -> Any:
+        return self._visit_nested_scope(node, set(_arg_names(node.args)))
+
+    def visit_ClassDef(self, node: ast.ClassDef) -> Any:
+        return self._visit_nested_scope(node, _bound_names(node.body)[0])
+
+    def _visit_comprehension(self, node: Any) -> Any:
+        return self._visit_nested_scope(
+            node, _bound_names([g.target for g in node.generators])[0]
+        )
+
+    visit_ListComp = _visit_comprehension
+    visit_SetComp = _visit_comprehension
+    visit_DictComp = _visit_comprehension
+    visit_GeneratorExp = _visit_comprehension
+
     def visit_Name(self, node: ast.Name) -> Any:
         parts = self._aliases.get(node.id)
         if parts is None or not isinstance(node.ctx, ast.Load):
